@@ -21,7 +21,7 @@ CmdMenu == {Cm(1, A, B, <<0, 1>>, Z, Z, 0), Cm(3, A, Z, Z, Z, Z, 0), Cm(4, B, Z,
            \cup {Cm(5, <<0, 8>>, Z, Z, Z, Z, dl) : dl \in {4, 20}}
            \cup {Cm(6, A, Z, Z, Z, Z, dl) : dl \in {3, 224, 225}}
 OneEach == {c \in CmdMenu : c.dlen \in {0, 16, 20, 48, 224}}
-CmdSeqs == {<<>>} \cup {<<c>> : c \in CmdMenu}
+CmdSeqs == {<<>>} \cup {<<c>> : c \in IF Level >= 2 THEN CmdMenu ELSE OneEach \cup {c \in CmdMenu : c.t = 2}}
            \cup (IF Level >= 2 THEN {<<c, d>> : c \in OneEach, d \in OneEach} ELSE {<<Cm(2, A, Z, Z, Z, Z, 209), Cm(14, Z, Z, Z, Z, Z, 0)>>})
 RootSets == IF Level >= 2 THEN {<<1, 0>>, <<2, 1>>, <<4, 0>>, <<4, 3>>} ELSE {<<1, 0>>, <<4, 3>>}
 Isks == {<<FALSE, 0>>, <<TRUE, 0>>, <<TRUE, 4>>}
